@@ -13,29 +13,36 @@ import (
 // Dur is a duration that is written to replay files in microseconds.
 type Dur int64
 
+//go:norace
 func (d Dur) D() time.Duration { return time.Duration(d) * time.Microsecond }
 
 // Us / Ms / Sec build durations.
-func Us(n int) Dur  { return Dur(n) }
-func Ms(n int) Dur  { return Dur(n * 1000) }
+//
+//go:norace
+func Us(n int) Dur { return Dur(n) }
+
+//go:norace
+func Ms(n int) Dur { return Dur(n * 1000) }
+
+//go:norace
 func Sec(n int) Dur { return Dur(n * 1000000) }
 
 // BrokerCfg are the broker configuration knobs a run draws (0 / "" = gmqtt default).
 type BrokerCfg struct {
-	DeliveryMode    string `json:",omitempty"`
-	MaxQueued       int    `json:",omitempty"`
-	MaxInflight     int    `json:",omitempty"`
-	ReceiveMax      int    `json:",omitempty"`
-	TopicAliasMax   *int   `json:",omitempty"`
-	MaxPacketSize   int    `json:",omitempty"`
-	NoQueueQos0     bool   `json:",omitempty"`
-	SessionExpiryS  *int   `json:",omitempty"`
-	MessageExpiryS  *int   `json:",omitempty"`
-	InflightExpiryS *int   `json:",omitempty"`
-	MaxKeepAlive    int    `json:",omitempty"`
-	Persistence     string `json:",omitempty"` // "memory" (default) | "redis"
+	DeliveryMode    string   `json:",omitempty"`
+	MaxQueued       int      `json:",omitempty"`
+	MaxInflight     int      `json:",omitempty"`
+	ReceiveMax      int      `json:",omitempty"`
+	TopicAliasMax   *int     `json:",omitempty"`
+	MaxPacketSize   int      `json:",omitempty"`
+	NoQueueQos0     bool     `json:",omitempty"`
+	SessionExpiryS  *int     `json:",omitempty"`
+	MessageExpiryS  *int     `json:",omitempty"`
+	InflightExpiryS *int     `json:",omitempty"`
+	MaxKeepAlive    int      `json:",omitempty"`
+	Persistence     string   `json:",omitempty"` // "memory" (default) | "redis"
 	PluginOrder     []string `json:",omitempty"`
-	Nodes           int    `json:",omitempty"` // federation: number of brokers (default 1)
+	Nodes           int      `json:",omitempty"` // federation: number of brokers (default 1)
 }
 
 // NetCfg controls the byte pipe between scripted clients and the broker.
@@ -57,14 +64,14 @@ type SchedCfg struct {
 
 // Will is the will of a CONNECT.
 type Will struct {
-	Topic   string
-	Payload string
-	QoS     byte
-	Retain  bool
-	DelayS  *uint32 `json:",omitempty"`
-	ExpiryS *uint32 `json:",omitempty"`
-	ContentType *string `json:",omitempty"`
-	User    [][2]string `json:",omitempty"`
+	Topic       string
+	Payload     string
+	QoS         byte
+	Retain      bool
+	DelayS      *uint32     `json:",omitempty"`
+	ExpiryS     *uint32     `json:",omitempty"`
+	ContentType *string     `json:",omitempty"`
+	User        [][2]string `json:",omitempty"`
 }
 
 // Op is one operation of the workload (flat union; K selects the kind).
@@ -78,27 +85,27 @@ type Op struct {
 	C int // actor: >=0 client index, <0 API actor
 
 	// connect
-	Ver       byte    `json:",omitempty"` // override client spec version
-	Clean     bool    `json:",omitempty"`
-	ExpiryS   *uint32 `json:",omitempty"`
-	KeepAlive uint16  `json:",omitempty"`
-	Will      *Will   `json:",omitempty"`
-	User      *string `json:",omitempty"`
-	Pass      *string `json:",omitempty"`
-	RecvMax   *uint16 `json:",omitempty"`
-	AliasMax  *uint16 `json:",omitempty"`
-	MaxPkt    *uint32 `json:",omitempty"`
+	Ver        byte    `json:",omitempty"` // override client spec version
+	Clean      bool    `json:",omitempty"`
+	ExpiryS    *uint32 `json:",omitempty"`
+	KeepAlive  uint16  `json:",omitempty"`
+	Will       *Will   `json:",omitempty"`
+	User       *string `json:",omitempty"`
+	Pass       *string `json:",omitempty"`
+	RecvMax    *uint16 `json:",omitempty"`
+	AliasMax   *uint16 `json:",omitempty"`
+	MaxPkt     *uint32 `json:",omitempty"`
 	AuthMethod *string `json:",omitempty"`
-	AuthData  []byte  `json:",omitempty"`
-	AuthReply []byte  `json:",omitempty"` // connect: answer to the broker's AUTH(continue); reauth: data sent
-	ReqProblem *byte  `json:",omitempty"`
-	Ack       string  `json:",omitempty"` // ack policy for this connection: ""/prompt, never, late, reconly, norel, err
-	AckDelay  Dur     `json:",omitempty"`
-	ClientID  *string `json:",omitempty"` // override client id (e.g. empty id)
-	Transport string  `json:",omitempty"` // "" tcp | "ws"
-	WSMode    int     `json:",omitempty"` // websocket segmentation mode + 1 (0 = drawn from the network PRNG)
-	WSText    bool    `json:",omitempty"` // websocket: send text messages
-	StayOpen  bool    `json:",omitempty"` // do not close the connection after a failing CONNACK
+	AuthData   []byte  `json:",omitempty"`
+	AuthReply  []byte  `json:",omitempty"` // connect: answer to the broker's AUTH(continue); reauth: data sent
+	ReqProblem *byte   `json:",omitempty"`
+	Ack        string  `json:",omitempty"` // ack policy for this connection: ""/prompt, never, late, reconly, norel, err
+	AckDelay   Dur     `json:",omitempty"`
+	ClientID   *string `json:",omitempty"` // override client id (e.g. empty id)
+	Transport  string  `json:",omitempty"` // "" tcp | "ws"
+	WSMode     int     `json:",omitempty"` // websocket segmentation mode + 1 (0 = drawn from the network PRNG)
+	WSText     bool    `json:",omitempty"` // websocket: send text messages
+	StayOpen   bool    `json:",omitempty"` // do not close the connection after a failing CONNACK
 
 	// subscribe / unsubscribe
 	Subs    []mqttc.Sub `json:",omitempty"`
@@ -106,27 +113,27 @@ type Op struct {
 	Filters []string    `json:",omitempty"`
 
 	// publish
-	Topic     string  `json:",omitempty"`
-	QoS       byte    `json:",omitempty"`
-	Retain    bool    `json:",omitempty"`
-	Dup       bool    `json:",omitempty"`
-	Payload   string  `json:",omitempty"`
-	PadTo     int     `json:",omitempty"` // pad payload with '.' to this many bytes
-	MsgExpiry *uint32 `json:",omitempty"`
-	Alias     *uint16 `json:",omitempty"`
-	NoTopic   bool    `json:",omitempty"` // send empty topic (alias use)
-	PID       uint16  `json:",omitempty"` // explicit packet id (0 = allocate)
-	HoldRel   bool    `json:",omitempty"` // QoS 2: do not answer PUBREC with PUBREL
-	Repeat    int     `json:",omitempty"` // QoS 2: send the PUBLISH this many extra times (DUP=1) before PUBREL
-	ContentType *string `json:",omitempty"`
-	RespTopic *string `json:",omitempty"`
-	Corr      []byte  `json:",omitempty"`
-	PFmt      *byte   `json:",omitempty"`
-	UserProps [][2]string `json:",omitempty"`
+	Topic       string      `json:",omitempty"`
+	QoS         byte        `json:",omitempty"`
+	Retain      bool        `json:",omitempty"`
+	Dup         bool        `json:",omitempty"`
+	Payload     string      `json:",omitempty"`
+	PadTo       int         `json:",omitempty"` // pad payload with '.' to this many bytes
+	MsgExpiry   *uint32     `json:",omitempty"`
+	Alias       *uint16     `json:",omitempty"`
+	NoTopic     bool        `json:",omitempty"` // send empty topic (alias use)
+	PID         uint16      `json:",omitempty"` // explicit packet id (0 = allocate)
+	HoldRel     bool        `json:",omitempty"` // QoS 2: do not answer PUBREC with PUBREL
+	Repeat      int         `json:",omitempty"` // QoS 2: send the PUBLISH this many extra times (DUP=1) before PUBREL
+	ContentType *string     `json:",omitempty"`
+	RespTopic   *string     `json:",omitempty"`
+	Corr        []byte      `json:",omitempty"`
+	PFmt        *byte       `json:",omitempty"`
+	UserProps   [][2]string `json:",omitempty"`
 
 	// disconnect
-	Code      byte    `json:",omitempty"`
-	DiscExpS  *uint32 `json:",omitempty"`
+	Code     byte    `json:",omitempty"`
+	DiscExpS *uint32 `json:",omitempty"`
 	// cut
 	Mode string `json:",omitempty"` // fin | rst
 	// raw
@@ -139,16 +146,16 @@ type Op struct {
 	Custom string `json:",omitempty"` // api_custom: name of a registered function
 
 	PreConnect bool `json:",omitempty"` // send although the connection has no successful CONNACK
-	NoWait bool `json:",omitempty"` // do not wait for completion before the actor's next op
-	Delay  Dur  `json:",omitempty"` // delay before issuing once eligible
-	StallCap int `json:",omitempty"` // stall: outbound buffer bound
+	NoWait     bool `json:",omitempty"` // do not wait for completion before the actor's next op
+	Delay      Dur  `json:",omitempty"` // delay before issuing once eligible
+	StallCap   int  `json:",omitempty"` // stall: outbound buffer bound
 }
 
 // Phase is a set of per-actor op sequences that run concurrently; the phase ends at quiescence.
 type Phase struct {
 	Ops      []Op
-	Advance  Dur `json:",omitempty"` // clock jump after the phase
-	TimeoutS int `json:",omitempty"` // simulated seconds before unfinished ops are abandoned (default 120)
+	Advance  Dur    `json:",omitempty"` // clock jump after the phase
+	TimeoutS int    `json:",omitempty"` // simulated seconds before unfinished ops are abandoned (default 120)
 	Note     string `json:",omitempty"`
 }
 
@@ -168,11 +175,13 @@ type Plan struct {
 	Sched   SchedCfg
 	Clients []ClientSpec
 	Phases  []Phase
-	Final   string `json:",omitempty"` // "" stop broker at the end | "nostop"
+	Final   string            `json:",omitempty"` // "" stop broker at the end | "nostop"
 	Params  map[string]string `json:",omitempty"` // check specific
 }
 
 // Clone deep-copies a plan through JSON.
+//
+//go:norace
 func (p *Plan) Clone() *Plan {
 	b, _ := json.Marshal(p)
 	var q Plan
@@ -181,6 +190,8 @@ func (p *Plan) Clone() *Plan {
 }
 
 // NumOps counts operations.
+//
+//go:norace
 func (p *Plan) NumOps() int {
 	n := 0
 	for _, ph := range p.Phases {
@@ -189,8 +200,17 @@ func (p *Plan) NumOps() int {
 	return n
 }
 
+//go:norace
 func U32(v uint32) *uint32 { return &v }
+
+//go:norace
 func U16(v uint16) *uint16 { return &v }
+
+//go:norace
 func Str(v string) *string { return &v }
-func Int(v int) *int       { return &v }
-func B(v byte) *byte       { return &v }
+
+//go:norace
+func Int(v int) *int { return &v }
+
+//go:norace
+func B(v byte) *byte { return &v }
